@@ -117,6 +117,40 @@ theorem C12_multi_send_after_stop (ls : List Label) (s : St) (h : run init ls = 
   refine ⟨hc2, ?_⟩
   simp [step, hidle, hc2]
 
+/-- the only ways to stay pending, with several connections: no reader of the client has stopped and the waiter is still
+registered under its id (open, silent peers), or some connection's reader is about to deliver to it -/
+theorem C12_multi_pending_means_waiting (ls : List Label) (s : St) (h : run init ls = some s) (w : Nat)
+    (hw : w < s.nW) (hp : s.status w = .pending) :
+    (s.cache (s.hbhOf w) = some w ∧ ∀ c, s.reader c ≠ .stopped) ∨ ∃ c m, s.reader c = .removed m w := by
+  have hi := inv_run ls inv_init h
+  rcases hi.pending_ok w hw hp with hc | hr
+  · refine Or.inl ⟨hc, fun c hs => ?_⟩
+    have := hi.closed_ok (hi.stopped_ok c hs) (s.hbhOf w)
+    rw [hc] at this; cases this
+  · exact Or.inr hr
+
+/-- the reader of any connection cannot get stuck on the way to stopping: an undecodable item, a close or a reset at the
+head of its wire takes it to `stopping`; so does a decoded message nobody waits for; and from `stopping` its stop step is
+always enabled - whatever the other connections and the sender are doing -/
+theorem C12_multi_stop_path (s : St) (c : Nat) (hc : c < s.nC) :
+    (s.reader c = .running → ∀ rest, s.wire c = .bad :: rest →
+      ∃ s', step s (.readerDecode c) = some s' ∧ s'.reader c = .stopping) ∧
+    (∀ m, s.reader c = .decoded m → s.cache m.hbh = none →
+      ∃ s', step s (.readerRemove c) = some s' ∧ s'.reader c = .stopping) ∧
+    (s.reader c = .stopping → ∃ s', step s (.readerStop c) = some s' ∧ s'.reader c = .stopped) := by
+  refine ⟨?_, ?_, ?_⟩
+  · intro hr rest hw
+    refine ⟨{ s with wire := upd s.wire c rest, reader := upd s.reader c .stopping }, ?_, by simp [upd]⟩
+    simp only [step, hr, hw]; rw [if_neg (by omega)]; simp
+  · intro m hr hcn
+    refine ⟨{ s with reader := upd s.reader c .stopping }, ?_, by simp [upd]⟩
+    simp only [step, hr, hcn]
+  · intro hr
+    refine ⟨{ s with closed := true,
+                     status := fun w => if s.status w = .pending ∧ s.cache (s.hbhOf w) = some w then .dropped else s.status w,
+                     cache := fun _ => none, reader := upd s.reader c .stopped }, ?_, by simp [upd]⟩
+    simp only [step, hr]; simp
+
 /-- non-vacuity, and the switch-over history itself: a request is outstanding on connection 0 when connection 1 is
 attached; connection 0 ends; the request's future is resolved (with an error), connection 1 never said a word -/
 example : ∃ s, run init [.connect, .sendBegin 501, .write, .sendReturn, .connect, .peerEmit 0 .bad, .readerDecode 0,
